@@ -184,13 +184,12 @@ impl Check {
             "max_depth": st.max_depth,
             "violation_classes": st.violation_classes,
             "cap_hit": st.cap_hit,
+            "isolation": st.isolation,
         }));
         self.distinct_nontrivial += st.nontrivial_outcomes.len() as u64;
         for v in &st.violations {
             let n = st.violation_classes.get(&format!("{}|{}", v.violation.clause, v.violation.witness)).copied().unwrap_or(1);
-            let key = format!("{}|{}", v.violation.clause, v.violation.witness);
-            *self.finding_counts.entry(key.clone()).or_default() += n.saturating_sub(1);
-            self.add_finding(Finding {
+            self.add_finding_n(Finding {
                 clause: v.violation.clause.clone(),
                 witness: v.violation.witness.clone(),
                 detail: v.violation.detail.clone(),
@@ -204,7 +203,7 @@ impl Check {
                     "events": v.labels,
                     "log": v.log,
                 }),
-            });
+            }, n);
         }
         st
     }
